@@ -230,4 +230,22 @@ CHECKS = {
                  'parent are judged; askers unknown to the server are judged for fan-out only'),
         'technique': 'deterministic simulation with scripted parent/children/asker + per-request history check against tree and share models',
     },
+    'C04': {
+        'category': 'fault_enumeration',
+        'text': ('pair shape: two real clients (uploader and downloader) and the scripted server as relay, position-dependent file '
+                 'content; sizes {0,1,127,128,129,8191,8192,8193,24581,~100 KiB}, limits off/64/1 KiB/s, race/fallback, correct partial '
+                 'file on disk; network faults only: reset of the file connection after exactly k file bytes (k enumerated 0..size '
+                 'for every size <= 129 in every batch, chunk edges for the larger ones), resets of P connections during the '
+                 'negotiation, partitions of 30-400 s, 1-3 faults before success, five latency/segmentation regimes. scripted shape: '
+                 'one real client against a dishonest scripted peer on either side (short/long sender, lying filesize, offset beyond '
+                 'size, early close/reset at every k, never close). Safety at every state notification and loop iteration '
+                 '(COMPLETE => identical bytes and size, local file always a prefix, resume offset == local size, upload COMPLETE '
+                 'only if all bytes were handed to the socket and the peer ended the connection) and bounded liveness (900 s after '
+                 'the last network fault, no driver call) in the pair shape.'),
+        'design_ref': 'DESIGN.md section 3 (C04)',
+        'note': ('one open liveness finding is listed in known_findings.json (lost re-queue when the uploader is still busy with the '
+                 'broken connection); disk write errors on the downloader are not injected; for a sender that lies about the size the '
+                 '"remote file" is its announced prefix'),
+        'technique': 'deterministic simulation of two real clients with byte-exact connection faults (enumerated cut axis) + byte-equality/prefix/offset monitors and bounded liveness',
+    },
 }
